@@ -32,7 +32,7 @@
 #define MAXO 16
 #define MAXC 256
 #define NVAR 16
-#define DISPATCH_CAP 20000
+#define DISPATCH_CAP 3000
 
 struct cmd { char text[96]; char w[6][24]; int n; struct { int kind, a, b; } pred; };
 struct pctx { int pid; int ncmd; int autostart; int64_t prio; struct cmd cmds[MAXC]; uint64_t vars[NVAR]; };
